@@ -127,6 +127,30 @@ def _task(t):
     return acc
 
 
+def _layout_task(fam):
+    """Inputs that define every metric (three value choices), written in every block layout: what is
+    emitted must not depend on, let alone repeat, the order of the input."""
+    acc = sweep.new_acc()
+    for pick in (-1, 0, 1):
+        asg = T.full_assignment(fam, pick)
+        for rev in (False, True):
+            for order in T.block_layouts(fam, asg, rev):
+                vec = T.spell(fam, asg, order)
+                acc["n"] += 1
+                acc["calls"] += 4
+                acc["cmp"] += 3
+                why, cv = judge(fam, vec, False)
+                if why:
+                    sig = {"kind": "emitted", "family": fam}
+                    if "does not match the vectorString pattern" in why and fam == "4.0":
+                        sig["pattern_only"] = True
+                    sweep.bad(acc, {"what": "%s(%r): %s" % (T.CLASSNAME[fam], vec, why),
+                                    "kind": "emitted", "input": vec, "family": fam, "signature": sig})
+                else:
+                    acc["nontrivial"] += 1
+    return acc
+
+
 def _lenient_task(chunk):
     """Strings near valid vectors: whatever the library accepts among them is an accepted vector,
     and what it then emits must be valid too (whether it should have been accepted is C04's)."""
@@ -202,6 +226,7 @@ def run(ctx, res):
             tasks.append(("4.0", masks[lo:hi], (0, 1), (0, 2)))
         v4desc = "all subsets of size <=3 and their complements (%d)" % len(masks)
     accs = core.task_map(_task, ctx.rot(tasks))
+    accs += core.task_map(_layout_task, list(T.FAMILIES))
     from . import c04
     near = []
     for seed in c04.seeds(2):
@@ -252,7 +277,8 @@ def run(ctx, res):
                    "matched against the vectorString regex of the pinned FIRST schema; non-trivial "
                    "= at least one optional metric defined")
     cov["exhaustive"] = True
-    cov["bound"] = "v2: all 2^8 subsets x 3 rotations x 3 orders; v3: all 2^14 x 2 minors; v4: " + v4desc
+    cov["bound"] = ("v2: all 2^8 subsets x 3 rotations x 3 orders; v3: all 2^14 x 2 minors; v4: " + v4desc +
+                    "; all-metrics inputs in every permutation of the metric blocks")
     cov["samples"] = ctx.rot(tot["samples"])[:8]
     for c in tot["bad"]:
         res.add_violation(c)
